@@ -3,6 +3,7 @@ package proxy
 import (
 	"crypto/tls"
 	"errors"
+	"math"
 	"net"
 	"net/http"
 	"net/textproto"
@@ -14,7 +15,13 @@ import (
 // addResponseHeaders adds/updates headers in the response
 func addResponseHeaders(w http.ResponseWriter, r *http.Request, cfg config.Proxy) error {
 	if r.TLS != nil && cfg.STSHeader.MaxAge > 0 {
-		sts := "max-age=" + i32toa(int32(cfg.STSHeader.MaxAge))
+		// i32toa formats 32 bit values. A larger max-age must not
+		// wrap around: the largest value already means "forever".
+		maxAge := cfg.STSHeader.MaxAge
+		if maxAge > math.MaxInt32 {
+			maxAge = math.MaxInt32
+		}
+		sts := "max-age=" + i32toa(int32(maxAge))
 		if cfg.STSHeader.Subdomains {
 			sts += "; includeSubdomains"
 		}
